@@ -193,6 +193,7 @@ type world struct {
 	extra     map[string]any
 	wm        *wireMon
 	knownHits map[string]int
+	knownStop bool
 }
 
 // knownClasses: violation classes recorded in known_findings.json as open
@@ -222,7 +223,7 @@ func (w *world) now() time.Duration { return time.Since(w.t0) }
 func (w *world) nextSeq() int64 { w.evSeq++; return w.evSeq }
 
 func (w *world) violate(prop, class, f string, a ...any) {
-	if knownClasses[prop+":"+class] {
+	if knownClasses[prop+":"+class] || knownClasses[prop+":"+class+"!"] {
 		// a recorded known finding: count it and keep checking everything else
 		if w.knownHits == nil {
 			w.knownHits = map[string]int{}
@@ -230,6 +231,10 @@ func (w *world) violate(prop, class, f string, a ...any) {
 		w.knownHits[prop+":"+class]++
 		if w.verbose != nil && w.knownHits[prop+":"+class] == 1 {
 			w.verbose("KNOWN " + prop + " " + class + ": " + fmt.Sprintf(f, a...))
+		}
+		if knownClasses[prop+":"+class+"!"] {
+			// the rest of this run would only show consequences of the recorded defect
+			w.knownStop = true
 		}
 		return
 	}
@@ -450,7 +455,7 @@ func (w *world) run(cond func() bool, deadline time.Duration) stopReason {
 		if w.viol != nil {
 			return stopViolation
 		}
-		if w.aborted != "" {
+		if w.aborted != "" || w.knownStop {
 			return stopAbort
 		}
 		if cond != nil && cond() {
@@ -640,6 +645,7 @@ func (w *world) teardown() {
 	}
 	// a violation or abort during teardown must not mask the run's verdict
 	w.viol = nil
+	w.knownStop = false
 	abortedBefore := w.aborted
 	w.aborted = ""
 	w.stepCheck = nil
@@ -714,6 +720,7 @@ type simStream struct {
 	writerDone bool
 	readerDone bool
 	closed bool
+	openSeq int64
 }
 
 const ppiBase = 0x00100000
@@ -1027,3 +1034,7 @@ func (w *world) setup(cfg *runConfig) {
 }
 
 func isEOF(err error) bool { return errors.Is(err, io.EOF) }
+
+// stopped: the run has a verdict (or hit a recorded finding that ends it) and
+// the scenario should return.
+func (w *world) stopped() bool { return w.viol != nil || w.aborted != "" || w.knownStop }
